@@ -345,7 +345,7 @@ contract('AdbDevice._pull',
          requires=STREAM_OK + FS_INV_S + [RINV, "{0}.recv_message_format == b'<2I' and {0}.recv_message_size == 8".format(FS), D_MAXDATA, D_PATH,
                                           '{0}._maxdata == self._maxdata'.format(FS),
                                           'self._local_id >= 1 and self._local_id < 2**32 and val(adb_info.local_id) == self._local_id',
-                                          'self._available', NOLOCK],
+                                          'self._available and len(utf8(device_path)) > 0', NOLOCK],
          modifies=PULL_FS_MOD,
          ensures=[('C08', 'writes-exactly-the-DATA-payloads-in-order', 'G.fout == old(G.fout) + catFS({0}, {1}, {2}) and {2} >= 0'.format(LID, F1, PULLED)),
                   ('C08', 'stops-at-DONE', 'FS_id({0}, G.fi[{0}] - 1) == DONE'.format(LID)),
@@ -353,7 +353,7 @@ contract('AdbDevice._pull',
                    'implies(not isnone(progress_callback), G.cb_bytes - old(G.cb_bytes) == len(G.fout) - len(old(G.fout)))'),
                   ('C08', 'no-callback-no-calls', 'implies(isnone(progress_callback), G.cb_bytes == old(G.cb_bytes))'),
                   RELEASED, MONO],
-         raises=dict(exc_all([RELEASED, MONO]), **dict(FS_RD_FAIL + [('AdbConnectionError', [RELEASED, MONO]), ('DevicePathInvalidError', [RELEASED, MONO])])),
+         raises=dict(exc_all([RELEASED, MONO]), **dict(FS_RD_FAIL)),
          loops={0: dict(invariant=[
              ('C08', 'G.fout == old(G.fout) + catFS({0}, {1}, G.fi[{0}] - {1}) and G.fi[{0}] >= {1}'.format(LID, F1)),
              ('C08', 'implies(not isnone(progress_callback), G.cb_bytes - old(G.cb_bytes) == len(G.fout) - len(old(G.fout)))'),
